@@ -557,11 +557,66 @@ class DisjFlow(Dataflow):
             acc = new
         return acc
 
+    def _collapse(self, states, block=None):
+        """too many states: join them, but only within groups that agree on the boolean temporaries (multiply-assigned bool
+        locals) - those carry the outcome of a guard to a later branch, and joining across them is what loses it"""
+        groups = {}
+        for fs in states:
+            sig = frozenset((k, v) for k, v in fs if k[0] == "val" and not k[1][1] and self._is_bool_temp(k[1][0]))
+            groups.setdefault(sig, []).append(fs)
+        cnt = self.__dict__.setdefault("_collapse_count", {})
+        cnt[block] = cnt.get(block, 0) + 1
+        if len(groups) > 8 or (block is not None and cnt[block] > 12):
+            return {frozenset(self._join_all(states).items())}
+        return {frozenset(self._join_all(g).items()) for g in groups.values()}
+
+    def _is_bool_temp(self, l):
+        c = self.__dict__.setdefault("_bool_temp_cache", {})
+        if l not in c:
+            c[l] = self.b.local_ty(l) == "bool" and self._is_multi_def(l)
+        return c[l]
+
     def _is_multi_def(self, l):
         return (l > self.b.argc or l == 0) and self.b.single_def(l) is None and len(self.b.defs.get(l, ())) > 1
 
+    _FOLD = {"BitOr": lambda a, b: a | b, "BitAnd": lambda a, b: a & b, "BitXor": lambda a, b: a ^ b,
+             "Add": lambda a, b: a + b, "AddUnchecked": lambda a, b: a + b, "Sub": lambda a, b: a - b, "Mul": lambda a, b: a * b}
+
+    def eval_in(self, st, e, depth=0):
+        """constant value of expression e in abstract state st, or None (folds | & ^ + - * over known singletons)"""
+        if e is None or depth > 12:
+            return None
+        if e[0] == "const":
+            return e[1]
+        v = st.get(e)
+        if v is not None and v[0] == "in" and len(v[1]) == 1:
+            return next(iter(v[1]))
+        if e[0] == "bin" and e[1] in self._FOLD:
+            a, b = self.eval_in(st, e[2], depth + 1), self.eval_in(st, e[3], depth + 1)
+            if a is not None and b is not None:
+                return self._FOLD[e[1]](a, b)
+        return None
+
+    def states_before_stmt(self, bb, idx):
+        """disjunctive states just before statement idx of block bb"""
+        out = []
+        for fs in self.states.get(bb, ()):
+            sts = [dict(fs)]
+            for s in self.b.stmts(bb)[:idx]:
+                sts = [n for st in sts for n in self.split_stmt(st, s)]
+            out += sts
+        return out
+
     def split_stmt(self, st, s):
         base = self.transfer_stmt(st, s)
+        if s[0] == "A" and not s[1][1] and self._is_multi_def(s[1][0]) and s[2][0] == "bin":
+            # `flags = flags | C`: the new value is computed from the state BEFORE the assignment
+            e0 = self.expr_of_rvalue(s[2])
+            v0 = self.eval_in(st, e0) if e0 is not None else None
+            if v0 is not None:
+                ns = dict(base)
+                ns[("val", (s[1][0], ()))] = ("in", frozenset([v0]))
+                return [ns]
         if s[0] == "A" and not s[1][1] and self._is_multi_def(s[1][0]):
             l, rv = s[1][0], s[2]
             key = ("val", (l, ()))
@@ -641,11 +696,11 @@ class DisjFlow(Dataflow):
                 merged = old | fresh
                 if succ in self.collapsed or len(merged) > self.CAP:
                     self.collapsed.add(succ)
-                    joined = frozenset(self._join_all(merged).items())
-                    if {joined} == old:
+                    joined = self._collapse(merged, succ)
+                    if joined == old:
                         continue
-                    self.states[succ] = {joined}
-                    pending[succ] = {joined}
+                    self.states[succ] = joined
+                    pending[succ] = joined - old
                 else:
                     self.states[succ] = merged
                     pending.setdefault(succ, set()).update(fresh)
@@ -697,7 +752,7 @@ class DisjFlow(Dataflow):
                 merged = old | new
                 if succ in collapsed or len(merged) > self.CAP:
                     collapsed.add(succ)
-                    merged = {frozenset(self._join_all(merged).items())}
+                    merged = self._collapse(merged, ('fr', succ))
                     if merged == old:
                         continue
                 table[succ] = merged
